@@ -1012,10 +1012,7 @@ Proof. intros c o. reflexivity. Qed.
 
 (* ---------- iterator scripts: no call inside a script crashes ---------- *)
 (* [step] answers an [Iter] script with the list of the per-call results; a call that would
-   dereference nil ends the list with the crash marker.  On reachable states this never happens.
-   The only caveat is a modelling one: the B-tree iterator of Model/BTreeIter.v descends with a
-   constant fuel of 64 levels, so for the BTree the statement is about trees of fewer than 2^65
-   entries (see Proofs/IterTreeBT.v). *)
+   dereference nil ends the list with the crash marker.  On reachable states this never happens. *)
 Lemma lin_cursor_nc : forall l hp cs p, ~ In ocrash (IterLinear.cursor_script_from l hp p cs).
 Proof.
   intros l hp cs. induction cs as [|c cs IH]; intros p; [intros []|].
@@ -1035,9 +1032,9 @@ Proof.
 Qed.
 
 Theorem ginv_iter_total : forall c s cs, config_ok c -> ginv c s ->
-  (ckind c = BTree -> size_of c s < 2 ^ 65) -> ~ In ocrash (run_iter c s cs).
+  ~ In ocrash (run_iter c s cs).
 Proof.
-  intros c s cs Hc H Hbt.
+  intros c s cs Hc H.
   destruct (IterLinear.linear_state c s) eqn:Hl.
   { rewrite (IterLinear.linear_iter_is_cursor c s cs Hl). apply lin_cursor_nc. }
   pose proof (ginv_shape c s H) as Sh. unfold ginv in H.
@@ -1063,13 +1060,10 @@ Proof.
     rewrite Proofs.AVLMap.count_inorder. exact Hn.
   - (* BTree *) unfold MM.minv, MM.Generic.inv in H. rewrite K in H. destruct H as ((Hinv & Hs) & Hn).
     assert (Hm : (3 <= bt_m c)%nat) by (destruct Hc as [Hc _]; specialize (Hc K); unfold bt_m; lia).
-    specialize (Hbt eq_refl). cbn [size_of] in Hbt.
     rewrite (IterTreeBT.run_iter_bt c r n cs); [apply tree_cursor_nc| |exact Hn].
     apply (IterTreeBT.bt_good_of_inv (bt_m c) (kc c) r Hm Hinv Hs).
-    apply (IterTreeBT.bt_depth_ok_of_size (bt_m c) r Hm Hinv). rewrite <- Hn. exact Hbt.
 Qed.
 
 Theorem C17_iter_total : forall c ops cs, config_ok c ->
-  (ckind c = BTree -> size_of c (run c ops) < 2 ^ 65) ->
   ~ In ocrash (run_iter c (run c ops) cs).
-Proof. intros c ops cs Hc Hb. apply ginv_iter_total; [exact Hc|apply run_ginv; exact Hc|exact Hb]. Qed.
+Proof. intros c ops cs Hc. apply ginv_iter_total; [exact Hc|apply run_ginv; exact Hc]. Qed.
